@@ -13,7 +13,7 @@ weak order (`WeakOrd`: the harness' external priority tables are of this kind), 
     a minimum; draining yields the stored multiset in non-decreasing order.
 -/
 import TlxVerif.Proofs.C13DAry
-import TlxVerif.Model.C13Addr
+import TlxVerif.Proofs.C13Addr
 import TlxVerif.Model.C13Radix
 namespace TlxVerif.C13
 
@@ -71,16 +71,6 @@ theorem siftDown_root {lt : Nat → Nat → Bool} (wo : WeakOrd lt) (d : Nat) (h
   apply siftDownFrom_heap wo
   rw [set_self]
   exact ⟨Nat.le_refl _, fun i hi hi0 _ hp => h i hi hi0 hp, fun h0 => absurd h0 (Nat.lt_irrefl 0)⟩
-
-theorem array_eq_pop_push (a : Array Nat) (h : 0 < a.size) : a = a.pop.push (a[a.size - 1]'(by omega)) := by
-  apply Array.ext
-  · simp; omega
-  · intro i h1 h2
-    by_cases hi : i < a.size - 1
-    · rw [Array.getElem_push_lt (by simpa using hi)]; simp
-    · have : i = a.size - 1 := by omega
-      subst this
-      simp [Array.getElem_push]
 
 theorem pop_aux {lt : Nat → Nat → Bool} (wo : WeakOrd lt) (d : Nat) (hd : 0 < d) (sw h : Array Nat) (t : Nat)
     (hperm : (sw.push t).Perm h)
@@ -313,5 +303,217 @@ example :
   intro i hi hi0
   have : i = 1 ∨ i = 2 ∨ i = 3 ∨ i = 4 := by simp at hi; omega
   rcases this with rfl | rfl | rfl | rfl <;> simp [atParent, parent]
+
+
+/-! ## Part 2: `DAryAddressableIntHeap`
+
+`handles_` is the inverse of `heap_` (`AOk`) after every operation, so `contains(key)` answers
+exactly whether `key` is stored; `remove`, `update` (in both directions), `build_heap` on empty and
+non-empty heaps (D8) and `update_all` keep the heap order and change the key set as documented.
+No operation of a history that respects the documented preconditions indexes out of bounds
+(the model returns `some`). -/
+
+inductive AOp where
+  | push (k : Nat) | pop | remove (k : Nat)
+  | update (k : Nat) (lt' : Nat → Nat → Bool)   -- the priority of `k` changed (new comparator `lt'`), then `update(k)`
+  | build (ks : Array Nat)
+  | reprio (lt' : Nat → Nat → Bool)             -- arbitrary priority changes, then `update_all()`
+  | clear | contains (k : Nat)
+
+structure AState where
+  lt : Nat → Nat → Bool
+  ah : AH
+
+inductive AOut where
+  | none | key (k : Nat) | bool (b : Bool)
+
+/-- one operation of the model (`none` = out-of-bounds access or violated `assert`) -/
+def AState.step (d : Nat) (hd : 0 < d) (s : AState) : AOp → Option (AState × AOut)
+  | .push k => (s.ah.push s.lt d k).map fun a => ({ s with ah := a }, .none)
+  | .pop =>
+    match s.ah.top? with
+    | some t => (s.ah.pop s.lt d hd).map fun a => ({ s with ah := a }, .key t)
+    | none => Option.none
+  | .remove k => (s.ah.remove s.lt d hd k).map fun a => ({ s with ah := a }, .none)
+  | .update k lt' => (s.ah.update lt' d hd k).map fun a => ({ lt := lt', ah := a }, .none)
+  | .build ks => (s.ah.build s.lt d hd ks).map fun a => ({ s with ah := a }, .none)
+  | .reprio lt' => (s.ah.updateAll lt' d hd).map fun a => ({ lt := lt', ah := a }, .none)
+  | .clear => some ({ s with ah := s.ah.clear }, .none)
+  | .contains k => some (s, .bool (s.ah.contains k))
+
+/-- documented preconditions, judged on the reference key set -/
+def AOp.pre (lt : Nat → Nat → Bool) (ref : List Nat) : AOp → Prop
+  | .push k => k ∉ ref
+  | .pop => ref ≠ []
+  | .remove k => k ∈ ref
+  | .update k lt' => WeakOrd lt' ∧ ∀ x y, x ≠ k → y ≠ k → lt' x y = lt x y
+  | .build ks => ks.toList.Nodup
+  | .reprio lt' => WeakOrd lt'
+  | .clear => True
+  | .contains _ => True
+
+/-- the reference key set -/
+def arefStep (ref : List Nat) : AOp → AOut → List Nat
+  | .push k, _ => k :: ref
+  | .pop, .key t => ref.erase t
+  | .pop, _ => ref
+  | .remove k, _ => ref.erase k
+  | .update k _, _ => if k ∈ ref then ref else k :: ref
+  | .build ks, _ => ks.toList
+  | .reprio _, _ => ref
+  | .clear, _ => []
+  | .contains _, _ => ref
+
+def AInvS (d : Nat) (s : AState) (ref : List Nat) : Prop :=
+  WeakOrd s.lt ∧ AOk s.ah ∧ HeapA s.lt d s.ah.heap ∧ s.ah.heap.toList.Perm ref
+
+private theorem mem_heap_iff {s : AState} {ref : List Nat} (hp : s.ah.heap.toList.Perm ref) (k : Nat) :
+    k ∈ s.ah.heap ↔ k ∈ ref := by
+  rw [← Array.mem_toList_iff]; exact hp.mem_iff
+
+/-- **one step of any history of the addressable heap** -/
+theorem addr_step (d : Nat) (hd : 0 < d) (s : AState) (ref : List Nat) (op : AOp)
+    (hinv : AInvS d s ref) (hpre : op.pre s.lt ref) :
+    ∃ s' out, s.step d hd op = some (s', out) ∧ AInvS d s' (arefStep ref op out) ∧
+      (∀ k, op = .contains k → out = .bool (decide (k ∈ ref))) ∧
+      (op = .pop → ∃ t, out = .key t ∧ t ∈ ref ∧ ∀ x ∈ ref, s.lt x t = false) := by
+  obtain ⟨wo, hok, hheap, hperm⟩ := hinv
+  cases op with
+  | push k =>
+    have hc : s.ah.contains k = false := by
+      cases h : s.ah.contains k with
+      | false => rfl
+      | true => exact absurd ((mem_heap_iff hperm k).mp ((contains_iff s.ah hok k).mp h)) hpre
+    obtain ⟨a, e1, e2, e3⟩ := apush_spec s.lt d s.ah k hok hc
+    obtain ⟨p1, p2⟩ := push_heap wo d s.ah.heap k hheap
+    refine ⟨{ s with ah := a }, .none, by simp only [AState.step, e1, Option.map_some], ⟨wo, e2, by rw [e3]; exact p1, ?_⟩, by simp, by simp⟩
+    simp only [arefStep]
+    rw [e3]
+    refine p2.toList.trans ?_
+    simp only [Array.toList_push]
+    exact (List.perm_append_singleton _ _).trans (List.Perm.cons k hperm)
+  | pop =>
+    have hne : 0 < s.ah.heap.size := by
+      cases hsz : s.ah.heap.size with
+      | zero =>
+        have : s.ah.heap = #[] := Array.eq_empty_of_size_eq_zero hsz
+        rw [this] at hperm
+        exact absurd (by simpa using hperm.symm) hpre
+      | succ n => omega
+    have htop : s.ah.top? = some s.ah.heap[0] := by simp [AH.top?, Array.getElem?_eq_getElem hne]
+    have hc : s.ah.contains s.ah.heap[0] = true := (contains_iff s.ah hok _).mpr (by simp)
+    obtain ⟨a, e1, e2, e3, e4⟩ := aremove_spec wo d hd s.ah s.ah.heap[0] hok hheap hc
+    have hpop : s.ah.pop s.lt d hd = some a := by
+      simp only [AH.pop, Array.getElem?_eq_getElem hne]; exact e1
+    have hmin := top_minimal wo d s.ah.heap hheap s.ah.heap[0] (by simp [top?, Array.getElem?_eq_getElem hne])
+    have hmem : s.ah.heap[0] ∈ ref := (mem_heap_iff hperm _).mp (by simp)
+    refine ⟨{ s with ah := a }, .key s.ah.heap[0], by simp only [AState.step, htop, hpop, Option.map_some], ⟨wo, e2, e3, ?_⟩, by simp,
+      fun _ => ⟨_, rfl, hmem, fun x hx => hmin x ((mem_heap_iff hperm x).mpr hx)⟩⟩
+    simp only [arefStep]
+    have h3 : (s.ah.heap[0] :: a.heap.toList).Perm ref := by
+      refine (List.Perm.trans ?_ e4.toList).trans hperm
+      simp only [Array.toList_push]
+      exact (List.perm_append_singleton _ _).symm
+    exact (List.perm_cons _).mp (h3.trans (List.perm_cons_erase hmem))
+  | remove k =>
+    have hc : s.ah.contains k = true := (contains_iff s.ah hok k).mpr ((mem_heap_iff hperm k).mpr hpre)
+    obtain ⟨a, e1, e2, e3, e4⟩ := aremove_spec wo d hd s.ah k hok hheap hc
+    refine ⟨{ s with ah := a }, .none, by simp only [AState.step, e1, Option.map_some], ⟨wo, e2, e3, ?_⟩, by simp, by simp⟩
+    simp only [arefStep]
+    have h3 : (k :: a.heap.toList).Perm ref := by
+      refine (List.Perm.trans ?_ e4.toList).trans hperm
+      simp only [Array.toList_push]
+      exact (List.perm_append_singleton _ _).symm
+    exact (List.perm_cons _).mp (h3.trans (List.perm_cons_erase hpre))
+  | update k lt' =>
+    obtain ⟨wo', hagree⟩ := hpre
+    by_cases hk : k ∈ ref
+    · have hc : s.ah.contains k = true := (contains_iff s.ah hok k).mpr ((mem_heap_iff hperm k).mpr hk)
+      unfold AH.contains at hc
+      split at hc
+      · rename_i h hkh
+        obtain ⟨hh, hkey⟩ := hok.bwd k h hkh
+        obtain ⟨a, e1, e2, e3, e4⟩ := aupdate_present_spec wo' d hd s.ah k h hok hkh (fun hh' =>
+          heapExcept_of_changed_key wo d _ h hh' hheap hok.distinct (by
+            intro x y hx hy
+            exact hagree x y (by rw [← hkey]; exact hx) (by rw [← hkey]; exact hy)))
+        refine ⟨{ lt := lt', ah := a }, .none, by simp only [AState.step, e1, Option.map_some], ⟨wo', e2, e3, ?_⟩, by simp, by simp⟩
+        simp only [arefStep, hk, if_true]
+        exact e4.toList.trans hperm
+      · cases hc
+    · have hc : s.ah.contains k = false := by
+        cases h : s.ah.contains k with
+        | false => rfl
+        | true => exact absurd ((mem_heap_iff hperm k).mp ((contains_iff s.ah hok k).mp h)) hk
+      have hheap' : HeapA lt' d s.ah.heap := by
+        intro i hi hi0
+        have hpi : parent d i < i := parent_lt hi0
+        have hne : ∀ j (hj : j < s.ah.heap.size), s.ah.heap[j] ≠ k := by
+          intro j hj e
+          apply hk
+          exact (mem_heap_iff hperm k).mp (by rw [← e]; simp)
+        have := hheap i hi hi0
+        simp only [atParent, Vector.getElem_mk] at this ⊢
+        rw [hagree _ _ (hne i hi) (hne (parent d i) (by omega))]
+        exact this
+      obtain ⟨a, e1, e2, e3⟩ := apush_spec lt' d s.ah k hok hc
+      obtain ⟨p1, p2⟩ := push_heap wo' d s.ah.heap k hheap'
+      refine ⟨{ lt := lt', ah := a }, .none, by simp only [AState.step, aupdate_absent lt' d hd s.ah k hc, e1, Option.map_some],
+        ⟨wo', e2, by rw [e3]; exact p1, ?_⟩, by simp, by simp⟩
+      simp only [arefStep, hk, if_false]
+      rw [e3]
+      refine p2.toList.trans ?_
+      simp only [Array.toList_push]
+      exact (List.perm_append_singleton _ _).trans (List.Perm.cons k hperm)
+  | build ks =>
+    obtain ⟨a, e1, e2, e3⟩ := abuild_spec s.lt d hd s.ah hok ks hpre
+    obtain ⟨b1, b2⟩ := build_heap wo d hd ks
+    exact ⟨{ s with ah := a }, .none, by simp only [AState.step, e1, Option.map_some],
+      ⟨wo, e2, by rw [e3]; exact b1, by rw [e3]; exact b2.toList⟩, by simp, by simp⟩
+  | reprio lt' =>
+    obtain ⟨a, e1, e2, e3⟩ := aupdateAll_spec lt' d hd s.ah hok
+    obtain ⟨b1, b2⟩ := build_heap hpre d hd s.ah.heap
+    exact ⟨{ lt := lt', ah := a }, .none, by simp only [AState.step, e1, Option.map_some],
+      ⟨hpre, e2, by rw [e3]; exact b1, by rw [e3]; exact b2.toList.trans hperm⟩, by simp, by simp⟩
+  | clear =>
+    refine ⟨{ s with ah := s.ah.clear }, .none, rfl, ⟨wo, aclear_spec s.ah, ?_, by simp [AH.clear, arefStep]⟩, by simp, by simp⟩
+    intro i hi; simp [AH.clear] at hi
+  | contains k =>
+    refine ⟨s, .bool (s.ah.contains k), rfl, ⟨wo, hok, hheap, hperm⟩, ?_, by simp⟩
+    intro k' hk'
+    cases hk'
+    congr 1
+    rw [Bool.eq_iff_iff, contains_iff s.ah hok k, decide_eq_true_eq]
+    exact mem_heap_iff hperm k
+
+/-- a history together with the proof that every operation meets its documented precondition at
+the moment it is issued -/
+def AValid (d : Nat) (hd : 0 < d) : AState → List Nat → List AOp → Prop
+  | _, _, [] => True
+  | s, ref, op :: ops =>
+    op.pre s.lt ref ∧
+    ∀ s' out, s.step d hd op = some (s', out) → AValid d hd s' (arefStep ref op out) ops
+
+/-- **all histories of the addressable heap**: every valid history runs without any out-of-bounds
+access, and ends in a consistent state (`handles_` = inverse of `heap_`) in heap order that stores
+exactly the reference key set -/
+theorem addr_history (d : Nat) (hd : 0 < d) (ops : List AOp) (s : AState) (ref : List Nat)
+    (hinv : AInvS d s ref) (hvalid : AValid d hd s ref ops) :
+    ∃ s' ref', AInvS d s' ref' ∧
+      (ops.foldlM (fun (st : AState × List Nat) op =>
+          (st.1.step d hd op).map fun r => (r.1, arefStep st.2 op r.2)) (s, ref)) = some (s', ref') := by
+  induction ops generalizing s ref with
+  | nil => exact ⟨s, ref, hinv, rfl⟩
+  | cons op ops ih =>
+    obtain ⟨hpre, hrest⟩ := hvalid
+    obtain ⟨s1, out, e1, i1, _, _⟩ := addr_step d hd s ref op hinv hpre
+    obtain ⟨s', ref', i2, e2⟩ := ih s1 (arefStep ref op out) i1 (hrest s1 out e1)
+    refine ⟨s', ref', i2, ?_⟩
+    simp only [List.foldlM_cons, e1, Option.map_some, Option.bind_eq_bind, Option.bind_some]
+    exact e2
+
+theorem ainv_init (d : Nat) (lt : Nat → Nat → Bool) (wo : WeakOrd lt) : AInvS d ⟨lt, {}⟩ [] :=
+  ⟨wo, ⟨fun i hi => absurd hi (by simp), fun i hi => absurd hi (by simp),
+    fun key pos hk => by simp at hk⟩, fun i hi => absurd hi (by simp), by simp⟩
 
 end TlxVerif.C13
